@@ -141,7 +141,8 @@ func (s *SendStream) write(p []byte) (bool /* is newly completed */, int, error)
 		// When the user now calls Close(), this is much more likely to happen before we popped that last STREAM frame,
 		// allowing us to set the FIN bit on that frame (instead of sending an empty STREAM frame with FIN).
 		// Don't buffer anything once the stream was reset: the data would never be sent, and the stream would never complete.
-		if s.resetErr == nil && s.canBufferStreamFrame() && len(s.dataForWriting) > 0 {
+		// The same goes for a stream that was shut down together with its connection: Write has to return that error.
+		if s.resetErr == nil && s.shutdownErr == nil && s.canBufferStreamFrame() && len(s.dataForWriting) > 0 {
 			if s.nextFrame == nil {
 				f := wire.GetStreamFrame()
 				f.Offset = s.writeOffset
